@@ -27,6 +27,7 @@ type hooked interface {
 	avfs.VFS
 	VerifDump() []string
 	CurDir() string
+	SetCurDir(string) error
 }
 
 type sys struct {
@@ -116,12 +117,15 @@ func (s *sys) Reset() error {
 			return
 		}
 
-		// a sibling of B whose name has B's name as a prefix (/top/bb against /top/b)
-		if err = s.base.Mkdir("/top/bb", 0o755); err != nil {
-			return
+		// a sibling of B whose name has B's name as a prefix (/top/bb against
+		// /top/b) with a subdirectory and a file, and an unrelated directory
+		for _, d := range []string{siblingPath, siblingSub, unrelated} {
+			if err = s.base.Mkdir(d, 0o755); err != nil {
+				return
+			}
 		}
 
-		if err = s.base.WriteFile("/top/bb/f", []byte("BBF"), 0o600); err != nil {
+		if err = s.base.WriteFile(siblingPath+"/f", []byte("BBF"), 0o600); err != nil {
 			return
 		}
 
@@ -564,7 +568,7 @@ func leakClass(gn, wn string) string {
 
 // valClass: coarse class of a non-path value pair.
 func valClasses(call, want, got string) (string, string) {
-	switch call {
+	switch strings.TrimPrefix(call, "BaseChdir.") {
 	case "Stat", "Lstat", "Open.Stat":
 		wn, wr, _ := strings.Cut(want, " ")
 		gn, gr, _ := strings.Cut(got, " ")
@@ -605,7 +609,8 @@ func (s *sys) Step(op int) bfs.StepResult {
 
 	// (MemFile.Chdir stores the name as given to Open: clean before use)
 	vcwd := path.Clean(s.ref.CurDir())
-	bcwd := path.Clean(s.base.CurDir())
+	rawBBefore := s.base.CurDir()
+	bcwd := path.Clean(rawBBefore)
 	baseBefore := s.baseDump
 
 	pc := pathClass(vcwd, o.A)
@@ -623,6 +628,19 @@ func (s *sys) Step(op int) bfs.StepResult {
 
 	if o.Call == "Getwd" {
 		pc, rc = "none", "inside"
+	}
+
+	baseOp := o.Call == "BaseChdir"
+	if baseOp {
+		// a call on the base: the class of the operand is where it lies w.r.t. B
+		pc, rc = "base:"+baseCwdClass(o.A), "n/a"
+	}
+
+	// class of the base's cwd before the call, when it is not in B (it got
+	// there by a call on the base)
+	bcc := ""
+	if !underB(bcwd) {
+		bcc = baseCwdClass(bcwd)
 	}
 
 	escaping := strings.HasSuffix(pc, ",escape")
@@ -645,16 +663,26 @@ func (s *sys) Step(op int) bfs.StepResult {
 	}
 
 	// the call, on the wrapper and on the reference
-	got := run(s.wr, o)
+	var got, want result
 
-	var want result
-
-	if symlinkCalls[o.Call] && !s.wr.HasFeature(avfs.FeatSymlink) && s.ref.HasFeature(avfs.FeatSymlink) {
+	switch {
+	case baseOp:
+		got, want = s.runBaseChdir(o.A)
+	case symlinkCalls[o.Call] && !s.wr.HasFeature(avfs.FeatSymlink) && s.ref.HasFeature(avfs.FeatSymlink):
 		// The wrapper does not advertise symbolic links: the reference is a
 		// file system without that feature.
+		got = run(s.wr, o)
 		want = noSymlinkResult(o)
-	} else {
+	default:
+		got = run(s.wr, o)
 		want = run(s.ref, o)
+	}
+
+	// returned path strings are normalised from the virtual cwd in which the
+	// call was made: for the wrapper calls that follow a BaseChdir, the new one
+	ncwd := vcwd
+	if baseOp {
+		ncwd = path.Clean(s.ref.CurDir())
 	}
 
 	var (
@@ -667,6 +695,10 @@ func (s *sys) Step(op int) bfs.StepResult {
 		sig := map[string]string{
 			"base": s.fsName, "call": call, "path": pc, "cwd": cwdClass, "reach": rc,
 			"kind": kind, "want": w, "got": g,
+		}
+
+		if bcc != "" {
+			sig["basecwd"] = bcc
 		}
 
 		diffs = append(diffs, kind+": "+why)
@@ -690,6 +722,10 @@ func (s *sys) Step(op int) bfs.StepResult {
 		sig := map[string]string{
 			"base": s.fsName, "call": call, "path": pc, "cwd": cwdClass, "reach": rc,
 			"kind": "note:" + class, "want": w, "got": g,
+		}
+
+		if bcc != "" {
+			sig["basecwd"] = bcc
 		}
 
 		diffs = append(diffs, "note "+class+": "+why)
@@ -793,7 +829,7 @@ compare:
 			why := fmt.Sprintf("reference %q, BasePathFS %q", w.Val, g.Val)
 
 			switch {
-			case nameSpellingOnly(call, vcwd, o.A, w.Val, g.Val):
+			case !baseOp && nameSpellingOnly(call, vcwd, o.A, w.Val, g.Val):
 				// FileInfo.Name echoes the last element of the name as given
 				// ("." for "a/.") on the reference and of the cleaned virtual
 				// path ("a") on the wrapper: the same node, another spelling
@@ -808,7 +844,7 @@ compare:
 		}
 
 		// returned path strings
-		if kind, wc, gc, why := comparePaths(w.Paths, g.Paths, vcwd, exists, &notes); kind != "" {
+		if kind, wc, gc, why := comparePaths(w.Paths, g.Paths, ncwd, exists, &notes); kind != "" {
 			if kind == "differs" {
 				kind = "value"
 			}
@@ -821,7 +857,7 @@ compare:
 		}
 
 		// paths embedded in the error
-		if kind, wc, gc, why := comparePaths(w.ErrPaths, g.ErrPaths, vcwd, exists, &notes); kind != "" {
+		if kind, wc, gc, why := comparePaths(w.ErrPaths, g.ErrPaths, ncwd, exists, &notes); kind != "" {
 			if kind == "differs" {
 				kind = "error-path"
 			}
@@ -846,7 +882,7 @@ compare:
 	if k, msg := fsx.Guard(func() { baseAfter = s.base.VerifDump(); refAfter = s.ref.VerifDump() }); k != "" {
 		mk(o.Call, "panic", "dump", k+":VerifDump", msg)
 
-		return s.finish(o, pc, want, got, viols, diffs, notes, bfs.StepResult{Key: s.lastKey, Rebuild: true})
+		return s.finish(o, pc, bcc, want, got, viols, diffs, notes, bfs.StepResult{Key: s.lastKey, Rebuild: true})
 	}
 
 	outsideAfter := s.outsideSnap(baseAfter)
@@ -887,7 +923,18 @@ compare:
 	}
 	semantic := underB(newB) && path.Clean("/"+strings.TrimPrefix(newB, basePath)) == newV
 	presented := strings.HasPrefix(rawB, basePath) && path.Clean("/"+strings.TrimPrefix(rawB, basePath)) == newV
-	cwdDiverged := !(semantic && presented)
+
+	// The base's cwd may be outside B only where a call on the base has put it
+	// (this step's BaseChdir if it succeeded, else where it was before the
+	// step): the virtual cwd is then the root, and no call through the wrapper
+	// moves the base's cwd to some other place outside B.
+	putThere := rawBBefore
+	if baseOp && len(got.Subs) > 0 && got.Subs[0].Kind == "ok" {
+		putThere = o.A
+	}
+
+	outsideOK := !underB(newB) && rawB == putThere && newV == "/"
+	cwdDiverged := !((semantic && presented) || outsideOK)
 
 	if cwdDiverged && len(viols) == 0 {
 		gc := "presented-differently"
@@ -907,6 +954,16 @@ compare:
 	mtimeOnly := !changed && (strings.Join(bAfter, "\n") != strings.Join(s.bDump, "\n"))
 	broken := poisoned || outsideChanged || treeDiff != "" || cwdDiverged || refCwdRelative
 
+	if baseOp {
+		// the wrapper calls after a BaseChdir show the cwd it presents: a
+		// difference there is a divergence of the cwd
+		for _, v := range viols {
+			if !strings.HasPrefix(v.Sig["kind"], "note:") {
+				broken = true
+			}
+		}
+	}
+
 	sr := bfs.StepResult{Key: key, Changed: changed && !broken, Broken: broken, Rebuild: broken || mtimeOnly}
 
 	if sr.Changed {
@@ -917,10 +974,10 @@ compare:
 		s.baseDump = baseAfter
 	}
 
-	return s.finish(o, pc, want, got, viols, diffs, notes, sr)
+	return s.finish(o, pc, bcc, want, got, viols, diffs, notes, sr)
 }
 
-func (s *sys) finish(o opT, pc string, want, got result, viols []bfs.Viol, diffs, notes []string, sr bfs.StepResult) bfs.StepResult {
+func (s *sys) finish(o opT, pc, bcc string, want, got result, viols []bfs.Viol, diffs, notes []string, sr bfs.StepResult) bfs.StepResult {
 	// Reporting unit: one instance per (expanded state, signature) - the same
 	// signature raised by many operations from one state is sent once (the
 	// reporter in the parent is sequential; millions of instances would
@@ -941,7 +998,7 @@ func (s *sys) finish(o opT, pc string, want, got result, viols []bfs.Viol, diffs
 			violating = true
 		}
 
-		k := v.Sig["call"] + "|" + v.Sig["path"] + "|" + v.Sig["cwd"] + "|" + v.Sig["reach"] + "|" + v.Sig["kind"] + "|" + v.Sig["want"] + "|" + v.Sig["got"]
+		k := v.Sig["call"] + "|" + v.Sig["path"] + "|" + v.Sig["cwd"] + "|" + v.Sig["reach"] + "|" + v.Sig["kind"] + "|" + v.Sig["want"] + "|" + v.Sig["got"] + "|" + v.Sig["basecwd"]
 
 		at := s.fromKey + "|" + k
 		if s.seenAt[at] {
@@ -969,6 +1026,10 @@ func (s *sys) finish(o opT, pc string, want, got result, viols []bfs.Viol, diffs
 
 	sr.Viols = viols
 	sr.Outcome = o.Call + "|" + want.kinds() + "|" + pc
+
+	if bcc != "" {
+		sr.Outcome += "|basecwd=" + bcc
+	}
 
 	for _, n := range notes {
 		if n == "spelling-only" {
@@ -1012,7 +1073,7 @@ func nameSpellingOnly(call, vcwd, arg, want, got string) bool {
 // answered from outside B: the same call made directly on the base with the
 // operand joined to B WITHOUT clamping ".." gives the wrapper's answer.
 func (s *sys) answersFromOutside(o opT, bcwd string, i int, g sub) bool {
-	if o.Two || o.Call == "Getwd" {
+	if o.Two || o.Call == "Getwd" || o.Call == "BaseChdir" {
 		return false
 	}
 
@@ -1199,7 +1260,8 @@ func refRootInvolved(vcwd string, o opT) bool {
 	}
 
 	switch o.Call {
-	case "Getwd":
+	case "Getwd", "BaseChdir":
+		// (the wrapper calls that follow a BaseChdir name "f" from the new cwd)
 		return false
 	case "Glob":
 		segs := strings.Split(o.A, "/")
